@@ -4,6 +4,7 @@ From Coq Require Import List NArith ZArith Bool.
 Import ListNotations.
 From Mos Require Import Gen.OpcodeTable spec.Isa model.Encode proofs.EncodeProofs.
 From Mos Require Import model.Segment model.SymTab model.Asm proofs.AsmConcat.
+From Mos Require model.Nom model.Parser proofs.ParserNewline.
 Open Scope Z_scope.
 
 (* The translated opcode table, read through the operand parser's form mapping, is the ISA matrix
@@ -67,6 +68,21 @@ Theorem C01_concat_is_each_alone : forall ts bs, all_bytes ts = Some bs ->
   exists parts, Forall2 (fun t b => all_bytes [t] = Some b) ts parts /\ bs = concat parts.
 Proof. exact concat_alone. Qed.
 Print Assumptions C01_concat_is_each_alone.
+
+(* Neighbour independence at text level, on the parser model (model/Parser.v = parser/mod.rs, whole grammar): for every
+   single-line statement text y (no line end, no block-comment opener, first non-blank character exists and does not start
+   a line comment) that does not begin one of the multi-line forms (`block_heads`: braces, label + block, .define, .macro,
+   .segment, .loop, .if/else, .import/from, .test -- the forms that may legitimately continue on the next line), parsing y
+   followed by a line end gives the same state, the same token (spans included) and stops at the same place whatever
+   stands on the following lines.  (The defect F-C01a -- `lsr` followed by `lda ($10,x)` on the next line -- was exactly a
+   failure of this statement; it is repaired in /repo b4d3e48 and the theorem holds for the code as it is now.) *)
+Theorem C01_newline_local : forall y rest st o st1 v r,
+  ParserNewline.lineb y = true -> ParserNewline.simple_line y ->
+  Parser.statement st (Nom.mkIn o (y ++ [10%N])) = (st1, Nom.Ok v r) ->
+  exists r', Parser.statement st (Nom.mkIn o (y ++ 10%N :: rest)) = (st1, Nom.Ok v r') /\ Nom.off r' = Nom.off r /\
+             exists y2, ParserNewline.sfx y2 y /\ Nom.rem r = y2 ++ [10%N] /\ Nom.rem r' = y2 ++ 10%N :: rest.
+Proof. exact ParserNewline.newline_local. Qed.
+Print Assumptions C01_newline_local.
 
 (* non-vacuity: the hypotheses are met by ordinary instructions *)
 Example C01_example_lda : code_encode Lda FAbs 255 None = Some [165%N; 255%N] /\
